@@ -18,6 +18,8 @@ mod mspec;
 mod red;
 mod rr;
 mod tpflash;
+mod bubbledew;
+mod vlepure;
 mod thermo;
 mod util;
 mod virial;
@@ -40,6 +42,8 @@ fn main() {
         "c20" => c20::run(&args),
         "rr" => rr::run(&args),
         "tpflash" => tpflash::run(&args),
+        "bubbledew" => bubbledew::run(&args),
+        "vlepure" => vlepure::run(&args),
         "thermo" => thermo::run(&args),
         "igcp" => igcp::run(&args),
         "equil" => equil::run(&args),
